@@ -269,7 +269,7 @@ def export_histories(run):
                         os.close(fd)
                         try:
                             x.to_g2o(path)
-                        except NotImplementedError:
+                        except Exception:  # noqa  (a refusal to export is not the subject here: only what equals() says afterwards)
                             pass
                         finally:
                             os.unlink(path)
